@@ -202,7 +202,22 @@ func (e treeEngine) Run(ctx *RunCtx) {
 			if doc.No == 4 && !workspace {
 				continue
 			}
-			d.Notify("textDocument/didSave", w.Save(doc))
+			sp := w.Save(doc)
+			if workspace && doc.MaxMark > 0 && c.Pct("ext-write-before-didSave", 20) {
+				// another program rewrites the file between the editor's write and its
+				// didSave: the open buffer still is what counts
+				var have []int
+				for v := 0; v <= doc.MaxMark; v++ {
+					if doc.Versions[v] != "" && v != doc.Marker {
+						have = append(have, v)
+					}
+				}
+				if len(have) > 0 {
+					w.ExtWrite(doc, have[c.Choose("ext-version", len(have))])
+					ctx.T("op%d another program rewrites d%d's file with its v%d", op, doc.No, doc.DiskMark)
+				}
+			}
+			d.Notify("textDocument/didSave", sp)
 			ctx.T("op%d didSave d%d (disk now v%d)", op, doc.No, doc.DiskMark)
 		case 2:
 			d.Notify("textDocument/didClose", J{"textDocument": docID(doc.URI)})
